@@ -128,6 +128,12 @@ class World:
         self.onedir = xr.DataArray(base[:, 0, :, 3:4].copy(), dims=("time", "freq", "dir"),
                                    coords={"time": ds.time.values, "freq": S.FREQ.copy(), "dir": np.array([135.0])}, name="efth")
         self.onedir.attrs = {"units": "m2/Hz/deg"}
+        # single-precision spectra in C order with missing bins (an instrument gap): the buffer the C routine would see directly
+        nanf = np.ascontiguousarray(base[:, :2].astype("float32"))
+        nanf[0, 0, 2, 3] = np.nan
+        nanf[2, 1, :, 5] = np.nan
+        self.nanf32 = xr.DataArray(nanf, dims=("time", "site", "freq", "dir"),
+                                   coords={"time": ds.time.values, "site": [0, 1], "freq": S.FREQ.copy(), "dir": S.GRIDS[1].copy()}, name="efth")
         # in-memory datasets in the native layout of the model readers (what xr.open_dataset would hand to from_<model> / read_dataset)
         from harness.props import c12
         vec = {"F": [2, 3, 5, 7], "D": [0, 1440, 2880, 4320], "E": [[1, 2, 0, 3], [4, 0, 5, 1], [0, 6, 2, 2], [1, 1, 3, 0]]}
@@ -149,11 +155,16 @@ class World:
     def objects(self):
         return [self.ds, self.buffer, self.qlons_np, self.qlats_np, self.qlons_list, self.qlats_list, self.qlons_da, self.qlats_da,
                 self.dset_lons, self.dset_lats, self.bboxes, self.freq_kwargs, self.dir_kwargs, self.stats_dict, self.tgt_freq, self.tgt_dir,
-                self.native["ww3"], self.native["ncswan"], self.native["wwm"], self.native["era5"], self.ds1d, self.time_encoding, self.buoy, self.onedir]
+                self.native["ww3"], self.native["ncswan"], self.native["wwm"], self.native["era5"], self.ds1d, self.time_encoding, self.buoy, self.onedir, self.nanf32]
 
     NAMES = ["dataset", "caller buffer", "query lons (ndarray)", "query lats (ndarray)", "query lons (list)", "query lats (list)",
              "query lons (DataArray)", "query lats (DataArray)", "dset_lons", "dset_lats", "bboxes list", "freq_kwargs", "dir_kwargs",
-             "stats dict", "target freq", "target dir list", "native WW3 dataset", "native SWAN-nc dataset", "native WWM dataset", "native ERA5 dataset", "1-D spectra dataset", "time_encoding dict", "single-buoy dataset (scalar lon/lat)", "one-direction DataArray"]
+             "stats dict", "target freq", "target dir list", "native WW3 dataset", "native SWAN-nc dataset", "native WWM dataset", "native ERA5 dataset", "1-D spectra dataset", "time_encoding dict", "single-buoy dataset (scalar lon/lat)", "one-direction DataArray", "float32 C-ordered spectra with NaN bins"]
+
+
+def xr_full(da, v):
+    import xarray as xr
+    return xr.DataArray(np.full((da.sizes["time"], da.sizes["site"]), v), coords={"time": da.time.values, "site": da.site.values}, dims=("time", "site"))
 
 
 def ops_table():
@@ -217,6 +228,9 @@ def ops_table():
         "smooth_onedir": lambda W: W.onedir.spec.smooth(3, 1),
         "hs_onedir": lambda W: W.onedir.spec.hs(),
         "smooth_spec_onedir": lambda W: __import__("wavespectra").core.utils.smooth_spec(W.onedir, 3, 1),
+        "ptm3_nanf32": lambda W: W.nanf32.spec.partition.ptm3(parts=2),
+        "ptm1_nanf32": lambda W: W.nanf32.spec.partition.ptm1(xr_full(W.nanf32, 12.0), xr_full(W.nanf32, 45.0), xr_full(W.nanf32, 80.0), swells=2),
+        "hs_nanf32": lambda W: W.nanf32.spec.hs(),
         "to_json": lambda W: W.ds.spec.to_json(os.path.join(W.tmp, "a.json")),
         "to_octopus": lambda W: W.ds.isel(site=[1]).spec.to_octopus(os.path.join(W.tmp, "a.oct")),
         "to_octopus_full": lambda W: W.ds.spec.to_octopus(os.path.join(W.tmp, "b.oct"), site_id="s"),
@@ -240,7 +254,7 @@ def run(ctx):
     names = sorted(table)
     maxlen = 2
     q = "{" + ",".join('"%s"' % n for n in names) + "}"
-    cfg = ws.write_cfg("frame_%d.cfg" % maxlen, "SPECIFICATION Spec\nCONSTANTS OPS = %s\n NOBJ = 24\n MAXLEN = %d\nPROPERTY ArgsImmutable\nINVARIANT EmitInv\n" % (q, maxlen))
+    cfg = ws.write_cfg("frame_%d.cfg" % maxlen, "SPECIFICATION Spec\nCONSTANTS OPS = %s\n NOBJ = 25\n MAXLEN = %d\nPROPERTY ArgsImmutable\nINVARIANT EmitInv\n" % (q, maxlen))
     r = ctx.tlc("Frame", cfg, workers=4, label="programs of %d calls over %d operations" % (maxlen, len(names)))
     for inv in r.violated:
         if inv != "EmitInv":
